@@ -12,7 +12,7 @@ Configs ==
       vs \in { << <<"PRSS">>, <<"TEMP">> >>, << <<"PRSS", "T02M">>, <<"TEMP", "UWND">> >>, << <<"SHGT">>, <<"UWND", "VWND">> >> },
       lv \in { << L("1.0000", 10000), L("0.9800", 9800) >>,
                << L("0.0000", 0), L("1000.0", 10000000), L("925.00", 9250000), L("50.000", 500000) >> },
-      nt \in 1..2, dth \in {3, 12},
+      nt \in (IF Quick THEN {1, 3} ELSE 1..3), dth \in {3, 12},
       st \in (IF Quick THEN { <<11, 7, 1, 0>>, <<99, 12, 31, 18>> } ELSE { <<11, 7, 1, 0>>, <<99, 12, 31, 18>>, <<12, 2, 28, 21>> }) }
 \* c: configuration; z: its file (records) and the packing of every field, computed once
 VARIABLES c, z
